@@ -106,7 +106,7 @@ theorem prog_spec (H : History) :
   show WP (newObservers sc 2 mk fun os =>
     (sjOf 1).observable.sub (os.getD 0 0) ;; (sjOf 0).observable.sub (os.getD 1 0)) _ _
   refine wp_newObservers sc mk 2 _ _ [] 0 _ rfl (by simp [sc]) (W2_ser lay _ _) (W2_map lay _ _)
-    (by intro p hp; cases hp) ?_
+    (by intro p hp; cases hp) ⟨_, rfl, rfl⟩ ?_
   show WP ((sjOf 1).observable.sub (lay.ob 1) ;; (sjOf 0).observable.sub (lay.ob 0)) _ _
   apply WP.seq
   refine (subscribe_src ok rel_W2 (j := 1) (by simp [lay]) (by simp) (by simp [Ctl.init])).conseq fun w1 h1 => ?_
